@@ -215,20 +215,27 @@ func (w c08word) describe() any {
 	return map[string]any{"connections": w.Conns, "word": steps}
 }
 
-// c08changed: every second batch of cases runs on a server whose password was changed across a restart
-// (Start with c08old, Stop, SetRequirePass(c08pass), Start); the other batches on a freshly started one.
-func c08changed(idx int) bool { return (idx/c08chunk)%2 == 1 }
+// c08mode: how the server of a batch of cases came to require c08pass. Batches rotate over
+//   0 freshly started with c08pass
+//   1 started with c08old, stopped, SetRequirePass(c08pass), started again
+//   2 started WITHOUT a password; a client then issued CONFIG SET requirepass c08pass
+//   3 started with c08old; an authorized client then issued CONFIG SET requirepass c08pass (no restart)
+func c08mode(idx int) int { return (idx / c08chunk) % 4 }
+
+var c08modeName = []string{"freshly-started", "password-changed-across-restart", "password-set-at-run-time-by-CONFIG-SET", "password-changed-at-run-time-by-CONFIG-SET"}
 
 const c08chunk = 400
 
 func c08server(idx int) *redis.Server {
 	c08.once.Do(func() {
 		srv := redis.NewServer()
-		first := c08pass
-		if c08changed(idx) {
-			first = c08old
+		mode := c08mode(idx)
+		switch mode {
+		case 0:
+			srv.SetRequirePass(c08pass)
+		case 1, 3:
+			srv.SetRequirePass(c08old)
 		}
-		srv.SetRequirePass(first)
 		for attempt := 0; attempt < 10; attempt++ {
 			c08.port = freePort()
 			srv.SetPort(c08.port)
@@ -237,13 +244,34 @@ func c08server(idx int) *redis.Server {
 				break
 			}
 		}
-		if c08.srv != nil && c08changed(idx) {
+		if c08.srv == nil {
+			return
+		}
+		switch mode {
+		case 1:
 			if err := srv.Stop(); err != nil {
 				c08.srv = nil
 				return
 			}
 			srv.SetRequirePass(c08pass)
 			if err := srv.Start(); err != nil {
+				c08.srv = nil
+			}
+		case 2, 3:
+			srv.SetCommandHandler(double.NewRec())
+			var reqs []resp.Value
+			if mode == 3 {
+				reqs = append(reqs, resp.Cmd("AUTH", c08old))
+			}
+			reqs = append(reqs, resp.Cmd("CONFIG", "SET", "requirepass", c08pass))
+			stream, ends := encodeReqs(reqs)
+			pr := runPipe(srv, reqs, chunkAt(stream, ends), sconn.Script{End: sconn.EOF})
+			for _, f := range pr.Frames {
+				if !resp.Equal(f, resp.Status("OK")) {
+					c08.srv = nil // the set-up itself was refused: nothing to judge
+				}
+			}
+			if len(pr.Frames) != len(reqs) {
 				c08.srv = nil
 			}
 		}
@@ -274,7 +302,7 @@ func c08run(idx int) run.Result {
 	}
 	res.Key = gen.Hash64(key)
 	res.NonTrivial = len(w.Steps) >= 2
-	res.Classes = []string{fmt.Sprintf("conns=%d", w.Conns), map[bool]string{false: "server=freshly-started", true: "server=password-changed-across-restart"}[c08changed(idx)]}
+	res.Classes = []string{fmt.Sprintf("conns=%d", w.Conns), "server=" + c08modeName[c08mode(idx)]}
 	conns := make([]*sconn.Conn, w.Conns)
 	waits := make([]func(time.Duration) double.ServeResult, w.Conns)
 	for i := range conns {
@@ -416,7 +444,7 @@ func init() {
 		ID: "C08", Level: "exploration",
 		Rule: func(tier string) string {
 			l1 := map[string]int{"quick": 3, "thorough": 4}[tier]
-			return fmt.Sprintf("case = one word of requests over 1..3 lock-step scripted connections (hook H1) on a server with SetRequirePass(%q) after Start() on a loopback port - in every second batch of 400 cases a server that was first started with another password, stopped, reconfigured and started again (the previous password is one more wrong candidate of the dictionary); the driver delivers one request to one chosen connection and waits for its reply, so an interleaving is a word over (connection, request). Alphabet (1 connection): AUTH with each candidate of a dictionary around the password ('', null bulk, every strict prefix, password+suffix, +NUL, NUL+, case variants, CRLF inside/after, leading space, the password), AUTH with 0 and 3 arguments, two-argument forms (4 user names x wrong passwords, wrong user + right password, ''/default + right password) and 8 data commands; ALL words of length <=%d on 1 connection, ALL words of length <=4 on 2 connections and <=3 on 3 connections over the reduced alphabet {AUTH P, AUTH '', AUTH prefix, GET, PING} x connection index; then seeded random words up to length 30. Monitor = per-connection shadow automaton {unauth,auth}; violations: a handler call or non-error reply to a non-AUTH request on an unauth connection, a wrong AUTH answered non-error, the exact one-argument AUTH not answered +OK, an authorized connection refused after a failed AUTH, authorization leaking between connections. distinct = the word; non-trivial = length >= 2", c08pass, l1)
+			return fmt.Sprintf("case = one word of requests over 1..3 lock-step scripted connections (hook H1) on a server with SetRequirePass(%q) after Start() on a loopback port - batches of 400 cases rotate over four ways the server came to require that password: freshly started with it; started with another password, stopped, reconfigured and started again; started without a password and then told CONFIG SET requirepass by a client; started with another password and then told CONFIG SET requirepass by an authorized client, without a restart (the previous password is one more wrong candidate of the dictionary); the driver delivers one request to one chosen connection and waits for its reply, so an interleaving is a word over (connection, request). Alphabet (1 connection): AUTH with each candidate of a dictionary around the password ('', null bulk, every strict prefix, password+suffix, +NUL, NUL+, case variants, CRLF inside/after, leading space, the password), AUTH with 0 and 3 arguments, two-argument forms (4 user names x wrong passwords, wrong user + right password, ''/default + right password) and 8 data commands; ALL words of length <=%d on 1 connection, ALL words of length <=4 on 2 connections and <=3 on 3 connections over the reduced alphabet {AUTH P, AUTH '', AUTH prefix, GET, PING} x connection index; then seeded random words up to length 30. Monitor = per-connection shadow automaton {unauth,auth}; violations: a handler call or non-error reply to a non-AUTH request on an unauth connection, a wrong AUTH answered non-error, the exact one-argument AUTH not answered +OK, an authorized connection refused after a failed AUTH, authorization leaking between connections. distinct = the word; non-trivial = length >= 2", c08pass, l1)
 		},
 		Exhaustive:  func(string) bool { return false },
 		Assumptions: []string{"AUTH <''|default> <password> may be accepted or refused (the statement does not fix the configured user name); the shadow follows the reply", "QUIT before authentication is not generated"},
